@@ -11,6 +11,7 @@ def main(tier):
     kernels.merge_structure(P, rep)
     kernels.barycentric(P, rep)
     dep.surface_fallback(P, rep)
+    rep.attempt(dep.triangle_pairing, P, rep)      # vertices, coefficients and reported index of one triangle
     dep.surface_pairing(P, rep)    # consumers: the depth listed at a point reaches the model that uses it
     rep.attempt(dep.depth_defaults, P, rep)      # unlisted polygon corners get the documented default
     rep.assumptions.append("the Delaunay triangulation (third-party delaunator) is NOT decided; of the in-triangle tolerances only their form (slack proportional to machine epsilon) is")
